@@ -7,8 +7,10 @@ import json, os, re, subprocess, sys
 W = "/var/tmp/seedconf"
 d = os.path.abspath(sys.argv[1])
 skip_suite = "--skip-suite" in sys.argv
-def sh(cmd, cwd=W, timeout=3600):
-    r = subprocess.run(cmd, shell=True, cwd=cwd, stdout=subprocess.PIPE, stderr=subprocess.STDOUT, text=True, timeout=timeout)
+def sh(cmd, cwd=W, timeout=7200):
+    os.makedirs(W + "/_nfdir", exist_ok=True)
+    r = subprocess.run(cmd, shell=True, cwd=cwd, stdout=subprocess.PIPE, stderr=subprocess.STDOUT, text=True, timeout=timeout,
+                       env=dict(os.environ, PYGSTLEARN_DIR=W + "/_nfdir/"))
     return r.returncode, r.stdout
 def build():
     rc, out = sh("cmake --build _build -j12")
@@ -21,7 +23,7 @@ def demo():
     rc, out = sh("timeout 600 " + exe, cwd=d)
     return rc, out[-1500:]
 def suite():
-    rc, out = sh("ctest --test-dir _build -j12 --timeout 900")
+    rc, out = sh("ctest --test-dir _build -j8 --timeout 1800 -E _cmp$ ; ctest --test-dir _build -j8 --timeout 900 -R _cmp$")
     passed = set(re.findall(r"Test\s+#\d+:\s+(\S+)\s+\.+\s+Passed", out))
     stable = [s.split("::")[0] for s in json.load(open("/root/.vp/BASELINE.json"))["stable_pass"]]
     return [s for s in stable if s not in passed]
